@@ -223,6 +223,11 @@ def node_list_measures(ctx, kind, o0, o1, perm, n, cid, case, r):
     inv = np.argsort(perm)           # old node u -> new index inv[u]
     idx = r.permutation(n)
     c = int(r.integers(1, n)) if n > 1 else 1
+    if r.random() < 0.4:
+        # layers numbered consecutively (the usual layout of interacting
+        # networks); after renumbering they are scattered
+        idx = np.arange(n)
+        ctx.count("consecutive_groups")
     g1, g2 = idx[:c].tolist(), idx[c:].tolist()
     if not g2:
         return
@@ -258,6 +263,8 @@ def node_list_measures(ctx, kind, o0, o1, perm, n, cid, case, r):
     for m in one:
         if hasattr(o0, m):
             calls.append((m, (g1,), (h1,), "g1"))
+    # (any order: the two objects answer the same sequence of queries)
+    calls = [calls[i] for i in r.permutation(len(calls))]
     with warnings.catch_warnings():
         warnings.simplefilter("ignore")
         for m, a0, a1, kind_ in calls:
@@ -334,8 +341,21 @@ def build_case(ctx, kind, r, small):
     if kind in ("Network", "Network[directed]", "InteractingNetworks",
                 "GeoNetwork"):
         n = int(r.integers(3, nmax + 1))
-        A = G.random_connected(r, n, n, directed=directed) \
-            if r.random() < 0.6 else G.gnp(r, n, 0.5, directed)
+        u = r.random()
+        if u < 0.5:
+            A = G.random_connected(r, n, n, directed=directed)
+        elif u < 0.75 or n < 4:
+            A = G.gnp(r, n, 0.5, directed)
+        else:
+            # two components (unreachable pairs inside and across groups)
+            n1 = int(r.integers(2, n - 1))
+            A = np.zeros((n, n), dtype=np.int8)
+            A[:n1, :n1] = G.random_connected(r, n1, n1, directed=directed)
+            A[n1:, n1:] = G.random_connected(r, n - n1, n - n1,
+                                             directed=directed)
+            if r.random() < 0.5:
+                q = r.permutation(n)
+                A = A[np.ix_(q, q)]
         w = G.pos_weights(r, n)
         W = G.link_attr(r, A, directed) if A.any() else None
         lat = np.round(r.uniform(-80, 80, n))
@@ -404,8 +424,24 @@ def build_case(ctx, kind, r, small):
                 {"local_recurrence_rate": float(r.choice([0.2, 0.4, 0.6]))}][
                     int(r.integers(0, 3))]
         metric = str(r.choice(["supremum", "euclidean", "manhattan"]))
+        adaptive = None
+        if r.random() < 0.25 and n >= 5:
+            # adaptive neighbourhood with an explicit processing order: the
+            # renumbered series processed in the correspondingly renumbered
+            # order gives the renumbered network (tie-free values: the
+            # algorithm walks each state's neighbours by increasing distance)
+            x = r.normal(size=(n, 2))
+            adaptive = (int(r.integers(1, max(2, n // 3))), r.permutation(n))
+            rule = {"adaptive_neighborhood_size": adaptive[0],
+                    "order": adaptive[1].tolist()}
 
         def make(p):
+            if adaptive is not None:
+                net = RecurrenceNetwork(x[p].copy(), metric=metric,
+                                        threshold=1.0, silence_level=3)
+                net.set_adaptive_neighborhood_size(
+                    adaptive[0], order=np.argsort(p)[adaptive[1]])
+                return net
             return RecurrenceNetwork(x[p].copy(), metric=metric,
                                      silence_level=3, **rule)
         return make, n, {"x": x, "rule": rule, "metric": metric,
